@@ -1,5 +1,5 @@
 """Property -> rules registry."""
-from .rules import kernel, incr, rot, sched, meas, integrator, kal, purity, diff, sensor, layout, geo, errmodel, frames, simrules, dtype, idxdom, forms, interp
+from .rules import kernel, incr, rot, sched, meas, integrator, kal, purity, diff, sensor, layout, geo, errmodel, frames, simrules, dtype, idxdom, forms, interp, smmodel
 
 PROPS = {
     'C01': dict(
@@ -53,7 +53,7 @@ PROPS = {
                lambda c: sched.sched_handover(c, (sched.FB,)),
                lambda c: sched.sched_pair(c, (sched.FB,)),
                lambda c: sched.key_rebind(c, (sched.FB,)), interp.fb_epoch,
-               integrator.buf_rules],
+               integrator.buf_rules, integrator.last_row],
         decided=['the state at an epoch inside a sampling interval is predicted with the elapsed '
                  'fraction of the pending increment',
                  'the one-row prediction made at every epoch writes inside the history buffers '
@@ -103,8 +103,9 @@ PROPS = {
                    'second-order (lever/Earth-radius) terms of the position Jacobian']),
     'C02': dict(
         rules=[kernel.row_rec, integrator.buf_rules, integrator.carrier, integrator.carrier_sync,
-               integrator.predict_eff],
-        decided=['kernel writes stay inside the buffers for every chunking and capacity (linear '
+               integrator.predict_eff, integrator.last_row],
+        decided=['get_time / get_pva return the latest row',
+                 'kernel writes stay inside the buffers for every chunking and capacity (linear '
                  'arithmetic proof on both paths of the capacity test)',
                  'all state carriers written together and with matching columns; set_pva writes '
                  'the row the next call reads', 'predict stores nothing observable',
@@ -169,8 +170,13 @@ PROPS = {
                    'first-order recovery of a perturbation (numerical)']),
     'C14': dict(
         rules=[sensor.sm_names, sensor.sm_count, sensor.sm_accum, sensor.sm_sign, sensor.sm_apply,
-               sensor.sm_gate, sensor.sm_table, purity.rng_src, purity.rng_fwd, layout.corr_pair],
-        decided=['the flag gating the reading-dependent part of the output matrix is true exactly '
+               sensor.sm_gate, sensor.sm_table, purity.rng_src, purity.rng_fwd, layout.corr_pair,
+               smmodel.sm_model],
+        decided=['for a covering family of enable masks (all off/on, each flag alone on and alone '
+                 'off, 40 fixed pseudo-random ones) the constructed model has exactly the '
+                 'documented states, dimensions, P, F, G/q, H, J/v; output matrix times state is '
+                 'bias + scale/misalignment error of the reading; updates accumulate and read back',
+                 'the flag gating the reading-dependent part of the output matrix is true exactly '
                  'when some scale/misalignment state exists (decided by length of the index list)',
                  'state names produced by estimator and simulator and parsed by the estimator '
                  'agree', 'output/input axis roles at all six sites',
@@ -208,7 +214,8 @@ PROPS = {
                lambda c: sched.sched_handover(c, (sched.FB,)), kal.q_psd, idxdom.idx_domain,
                interp.interp_rules, interp.fb_epoch, layout.corr_pair,
                lambda c: sched.sched_epochs(c, (sched.FB, sched.FF)),
-               lambda c: sched.sched_sibling(c, ('feedback', 'feedforward'))],
+               lambda c: sched.sched_sibling(c, ('feedback', 'feedforward')),
+               integrator.last_row, smmodel.sm_model],
         decided=['both filters fuse the same set of measurement samples: same epoch-list stages (merge, de-duplication, clip to [start, end], sentinel) in both loops',
                  'both filters reset both sensor models before any use (re-run reproducibility)',
                  'feedback effects (set_pva, update_estimates, correct) only inside the '
